@@ -707,8 +707,21 @@ type vSegInfo struct {
 
 func (c *vLogCase) segInfo() []vSegInfo {
 	var out []vSegInfo
-	for _, s := range c.l.Segments() {
-		out = append(out, vSegInfo{s.BaseOffset, s.MessageCount(), s.Position(), s.lastWriteTime})
+	segs := c.l.Segments()
+	for i, s := range segs {
+		// the last write time is taken from the driver's own record of what was appended, not from
+		// the segment's field: the oracle must not inherit a wrong value from the implementation
+		hi := int64(1) << 62
+		if i+1 < len(segs) {
+			hi = segs[i+1].BaseOffset
+		}
+		var last int64
+		for _, rr := range c.ref {
+			if rr.off >= s.BaseOffset && rr.off < hi {
+				last = rr.ts
+			}
+		}
+		out = append(out, vSegInfo{s.BaseOffset, s.MessageCount(), s.Position(), last})
 	}
 	return out
 }
@@ -893,11 +906,21 @@ func vRunC09Case(out *vOut, r *vRand, id int, stats map[string]int) {
 			}
 			// after a restart: a cut-off that falls inside a segment's write-time range
 			if segs := c.l.Segments(); c.opts.MaxLogAge > 0 && len(segs) > 1 {
-				sg := segs[r.intn(len(segs)-1)]
-				if sg.lastWriteTime > sg.firstWriteTime {
+				i := r.intn(len(segs) - 1)
+				lo, hi := segs[i].BaseOffset, segs[i+1].BaseOffset
+				var first, last int64 // write times of the segment's first and last record, from the driver's own record
+				for _, rr := range c.ref {
+					if rr.off >= lo && rr.off < hi {
+						if first == 0 {
+							first = rr.ts
+						}
+						last = rr.ts
+					}
+				}
+				if last > first {
 					c.state()
 					c.layout()
-					c.doCleanRetention(sg.firstWriteTime + 1 + int64(r.intn(int(sg.lastWriteTime-sg.firstWriteTime))))
+					c.doCleanRetention(first + 1 + int64(r.intn(int(last-first))))
 					c.layout()
 					c.stats["clean-after-reopen-straddling"]++
 				}
